@@ -1413,6 +1413,7 @@ struct Scenario {
     unsigned kinds{0};
     bool loop_in_if{false}, sort{false}, group{false}, unresolved{false}, deep{false}, very_deep{false};
     bool pointers{false}; // C17 only: containers reached through pointer values (a function of the case bytes, no entropy is spent)
+    bool big_root{false}; // C17 only: 24 more members in the root object (tables above 16 items, longer collision chains)
 };
 
 void make_scenario(const Case &c, Scenario &s) {
@@ -1441,6 +1442,7 @@ void make_scenario(const Case &c, Scenario &s) {
     {
         std::string key(c.bytes.begin(), c.bytes.end());
         s.pointers = (pbt::fnv1a(key) % 3) == 0;
+        s.big_root = ((pbt::fnv1a(key) >> 8) % 3) == 1;
     }
 #endif
 }
@@ -1456,6 +1458,12 @@ std::string render_with_library(const Scenario &s, pbt::Ctx &ctx) {
         to_value_ptr(s.root, v, pool, counter, 0);
     } else {
         to_value(s.root, v);
+    }
+    if (s.big_root && v.IsObject()) {
+        // a bigger table: lookups walk collision chains, and whatever a lookup might cache or reorder would be shared by the threads
+        for (int i = 0; i < 24; ++i) {
+            v[mkstr<Char_T>("zz" + std::to_string(i * 7))] = i;
+        }
     }
     StringStream<Char_T> value_before;
     v.Stringify(value_before, 17U);
@@ -1518,6 +1526,7 @@ std::string render_with_library(const Scenario &s, pbt::Ctx &ctx) {
     // concurrent renders through the shared const cache and the shared value
     {
         const unsigned nthreads = 4;
+        pbt::Watchdog                     dog(120, "the concurrent render phase");
         std::vector<std::thread>          th;
         std::vector<StringStream<Char_T>> outs(nthreads);
         const Array<Tags::TagBit>        &shared = cache;
@@ -1653,7 +1662,8 @@ struct H {
         }
         ctx.label("pointer-values", s.pointers);
         // (with pointer values only purity is decided: how sort= and group= treat a set held through a pointer is not documented)
-        if (got != s.expect && !s.pointers) {
+        ctx.label("root-with-24-more-members", s.big_root);
+        if (got != s.expect && !s.pointers && !s.big_root) {
             // first difference, for the reader
             size_t k = 0;
             while (k < got.size() && k < s.expect.size() && got[k] == s.expect[k]) {
